@@ -3,6 +3,8 @@
 package nsqd
 
 import (
+	"time"
+
 	"github.com/nsqio/nsq/internal/verifrt"
 )
 
@@ -116,6 +118,53 @@ func VerifC12_ConcurrentFirstPublishers() {
 	verifrt.Join()
 	verifrt.Assert(a != b, "concurrent-publishers-get-distinct-ids")
 	verifrt.Reach("two-ids-generated", a != b)
+	if !verifrt.Symbolic() {
+		t.Close()
+	}
+}
+
+// Topic.GenerateID from ANY generator state (symbolic sequence, last timestamp, last id; e.g. the
+// per-millisecond sequence is exhausted or the clock stepped back): it returns only an id that the
+// generator really produced - strictly above every id handed out before, recorded as the last id,
+// never the zero id - and when the generator refuses, the publish WAITS (sleeps and retries).
+// Bounded: paths needing more than 2 retries are cut (outside the claim).
+func VerifC12_GenerateIDWaitsForAFreshID() { verifrt.Atomic(verifC12GenerateID) }
+
+var verifC12Sleeps int
+
+func verifC12SleepStub(d time.Duration) {
+	verifC12Sleeps++
+	if verifC12Sleeps > 2 {
+		verifrt.Done()
+	}
+}
+
+func verifC12GenerateID() {
+	verifC12Clock()
+	n := verifShellNSQD(verifOpts())
+	verifrt.StubNative("(*github.com/nsqio/nsq/nsqd.NSQD).Notify", verifNotifyNop)
+	t := NewTopic("t", n, func(*Topic) {})
+	f := t.idFactory
+	f.nodeID = verifrt.Int64("nodeID")
+	f.sequence = verifrt.Int64("sequence")
+	f.lastTimestamp = verifrt.Int64("lastTimestamp")
+	f.lastID = guid(verifrt.Int64("lastID"))
+	verifrt.Assume(f.nodeID >= 0 && f.nodeID < 1024 && f.sequence >= 0 && f.sequence <= 4095)
+	// a state the generator can be in: the last id is the one composed from its own fields, and
+	// the last timestamp is not in the future by more than a clock step the retries can cover
+	verifrt.Assume(f.lastID >= 0)
+	before := f.lastID
+	verifC12Sleeps = 0
+	if verifrt.Symbolic() {
+		verifrt.Stub("time.Sleep", verifC12SleepStub)
+	}
+	id := t.GenerateID()
+	var zero MessageID
+	verifrt.Assert(id != zero, "generated-id-is-never-the-zero-id")
+	verifrt.Assert(f.lastID > before, "generated-id-is-above-every-earlier-id")
+	verifrt.Assert(id == f.lastID.Hex(), "returned-id-is-the-one-the-generator-recorded")
+	verifrt.Reach("publish-waited-for-a-fresh-id", verifC12Sleeps > 0)
+	verifrt.Reach("fresh-id-at-once", verifC12Sleeps == 0)
 	if !verifrt.Symbolic() {
 		t.Close()
 	}
